@@ -124,7 +124,7 @@ func FetchFn(from interface{}, name string) reflect.Value {
 			if value.Kind() == reflect.Interface {
 				value = value.Elem()
 			}
-			return value
+			return derefFn(value)
 		}
 	case reflect.Struct:
 		// If struct has not method, maybe it has func field.
@@ -134,10 +134,18 @@ func FetchFn(from interface{}, name string) reflect.Value {
 			if value.Kind() == reflect.Interface {
 				value = value.Elem()
 			}
-			return value
+			return derefFn(value)
 		}
 	}
 	panic(fmt.Sprintf(`cannot get "%v" from %T`, name, from))
+}
+
+// derefFn follows pointers to a function: the checker accepts a call of a member of type *func(...).
+func derefFn(value reflect.Value) reflect.Value {
+	for value.Kind() == reflect.Ptr && !value.IsNil() {
+		value = value.Elem()
+	}
+	return value
 }
 
 func FetchFnNil(from interface{}, name string) reflect.Value {
